@@ -281,6 +281,11 @@ def extra(ctx, out, quick_n=22, thorough_n=300):
                                       'coq': xcases[i][:3000]})
     out.evaluations += len(jcases) + len(ecases) + len(tcases) + len(ccases) + len(xcases)
     out.nontrivial += len(distinct)
+    # minimum-count guard: an empty or almost empty stream must not pass for a tie
+    n_eval__ = max([v for k, v in dist.items() if isinstance(v, int) and k in ('programs', 'pairs', 'cases', 'sets', 'joints', 'evaluated')] + [0])
+    if n_eval__ < 5:
+        out.corr_errors.append('gen_embed: only %d cases were evaluated (distribution %r)' % (n_eval__, {k: v for k, v in dist.items() if isinstance(v, int)}))
+
     out.extra['embed_model'] = dist
     out.trusted_base = list(out.trusted_base or []) + TRUSTED
     out.assumptions = list(out.assumptions or []) + ASSUMPTIONS
